@@ -165,6 +165,9 @@ def rule_pipe(ctx):
 
 def rule_transition(ctx):
     fx = ctx.facts
+    # `hp -> tp` is stated for every predicate of either program: the collectors behind Program::predicates must reach every rule and body
+    from .. import collect
+    collect.check_asp_predicate_collectors(ctx, "COLLECT", fx)
     ev = sym.Eval(fx, inline_depth=0)
     ta = fx.fn("StrongEquivalenceTask::transition_axioms")
     v = ev.function(ta)
@@ -232,7 +235,19 @@ def rule_gamma_shared(ctx):
     from . import c05
     sub = type(ctx)(ctx.prop, ctx.tier, ctx.facts)
     c05.rule_gamma(sub)
+    # .. and on here() / there() renaming every atom to its h- / t-copy, whatever its name (Apply::apply reaches every node)
+    c05.rule_apply(sub)
+    c05.rule_prefix(sub)
     ctx.obls.extend(sub.obls)
 
 
-RULES = [rule_route, rule_pipe, rule_transition, rule_gamma_shared]
+def rule_symbol_order_shared(ctx):
+    """the obligations are read over the standard interpretation of symbolic constants: the order axioms every problem carries must state the
+    lexicographic order (C12's chain obligations), else a comparison between constants is evaluated the wrong way round"""
+    from . import c12
+    sub = type(ctx)(ctx.prop, ctx.tier, ctx.facts)
+    c12.rule_chain(sub)
+    ctx.obls.extend(sub.obls)
+
+
+RULES = [rule_route, rule_pipe, rule_transition, rule_gamma_shared, rule_symbol_order_shared]
